@@ -31,6 +31,13 @@
  *   (k-th call of that thread).  Scheduling points = the parsec_atomic_* operations (interpose.h).
  *   out:  t0: T=<ret> S=<old> G=<ret>,<constructed or ->,[destructed,..] ... | t1: ... | slots: s0,s1,..
  *         | steps: .. | spins: ..  [<deadlock>]
+ * T-sched case on the registry:  regs n@t n@t .. | ops of thread 0 / ops of thread 1 / ... | schedule
+ *   the names n@t are registered first, one after the other, and held by thread t; then each thread runs
+ *   R:n (register name n)  U:n (unregister the id this thread holds for n; skip when it holds none)
+ *   L:n (lookup)  on the one registry, yielding between two ops.  Scheduling points = lock / unlock of
+ *   the registry's list lock (and of the ioa_list lock inside unregister).
+ *   out:  init{id=name,..} | t0: R=<id|-1>{registry seen on return} U=<id|-1|skip>{..} L=<id|-1>{..} ... | t1: ...
+ *         | reg[id=name,...]max=<max_id> | steps: .. | spins: ..
  *   With -DVERIF_RACE (race exploration, clang -fsanitize=thread + tsanrt.c) there is no macro
  *   interposition: every plain or atomic access to the array's slots and fields, its rw-lock, the
  *   registry's max_id, list lock and entries is a scheduling point. */
@@ -58,9 +65,14 @@ extern void race_share(const void *p, unsigned long len); extern void race_reset
 
 /* ---- allocator wrappers used by info.c only ------------------------------ */
 #define VHDR 16
+static int v_share;                       /* race build: allocations of info.c made while threads run are shared */
 static void *v_malloc(size_t n) {
     unsigned char *p = malloc(n + VHDR); if (!p) abort();
-    *(size_t *)p = n; memset(p + VHDR, 0xA5, n); return p + VHDR;
+    *(size_t *)p = n; memset(p + VHDR, 0xA5, n);
+#if defined(VERIF_RACE)
+    if (v_share) race_share(p + VHDR, n);
+#endif
+    return p + VHDR;
 }
 static void *v_calloc(size_t a, size_t b) {
     unsigned char *p = v_malloc(a * b); memset(p, 0, a * b); return p;
@@ -253,8 +265,110 @@ static void do_sched(char *line) {
     flush_out();
 }
 
+/* ---- T-sched: coroutines on the registry ------------------------------------------------ */
+typedef struct { char k; int n; int ret; int skipped; int nsnap; int snap[2 * MAXN + 2]; } qop_t;
+typedef struct { int nops; qop_t ops[SMAXOPS]; int held[MAXN]; } qthr_t;
+static qthr_t QT[SMAXT];
+static void q_worker(void *arg) {
+    int t = (int)(intptr_t)arg; qthr_t *T = &QT[t];
+    for (int j = 0; j < T->nops; j++) {
+        qop_t *o = &T->ops[j]; int r;
+        if (o->k == 'R') {
+            r = parsec_info_register(&nfo, cname(o->n), NULL, NULL, NULL, NULL, NULL);
+            if (r != PARSEC_INFO_ID_UNDEFINED) T->held[o->n] = r;
+            o->ret = r;
+        } else if (o->k == 'U') {
+            if (T->held[o->n] < 0) o->skipped = 1;
+            else { int id = T->held[o->n]; T->held[o->n] = -1; r = parsec_info_unregister(&nfo, id, NULL); o->ret = r; }
+        } else { r = parsec_info_lookup(&nfo, cname(o->n), NULL); o->ret = r; }
+        /* the registry as this thread sees it now that the call has returned: walked without yielding */
+        cos_enabled = 0;
+        /* only when nobody is inside a critical section of the registry (the lock word of this build is an int32) */
+        if (*(volatile int32_t *)&nfo.info_list.atomic_lock != 0) o->nsnap = -1;
+        else
+        for (parsec_list_item_t *it = PARSEC_LIST_ITERATOR_FIRST(&nfo.info_list);
+             it != PARSEC_LIST_ITERATOR_END(&nfo.info_list) && o->nsnap < MAXN; it = PARSEC_LIST_ITERATOR_NEXT(it)) {
+            parsec_info_entry_t *ie = (parsec_info_entry_t *)it; int nm = -1;
+            for (int n = 0; n < MAXN; n++) if (!strcmp(cname(n), ie->name)) { nm = n; break; }
+            o->snap[2 * o->nsnap] = ie->iid; o->snap[2 * o->nsnap + 1] = nm; o->nsnap++;
+        }
+        cos_enabled = 1;
+        if (j + 1 < T->nops) cos_yield();
+    }
+}
+static void do_regs(char *line) {
+    static long sched[8192];
+    char *bar1 = strchr(line, '|'), *bar2 = bar1 ? strchr(bar1 + 1, '|') : NULL;
+    if (!bar1 || !bar2) { emit("<bad case>"); flush_out(); return; }
+    *bar1 = 0; *bar2 = 0;
+    PARSEC_OBJ_CONSTRUCT(&nfo, parsec_info_t);
+    { parsec_list_item_t warm; PARSEC_OBJ_CONSTRUCT(&warm, parsec_list_item_t); }   /* class initialisation (it locks) happens here, not in a thread */
+    narr = 0;
+    for (int i = 0; i < MAXN; i++) snprintf(name_buf[i], sizeof name_buf[i], "n%d", i);
+    memset(QT, 0, sizeof QT);
+    for (int t = 0; t < SMAXT; t++) for (int n = 0; n < MAXN; n++) QT[t].held[n] = -1;
+    char *save0 = NULL;
+    for (char *tok = strtok_r(line + 5, " ", &save0); tok; tok = strtok_r(NULL, " ", &save0)) {
+        char *q; long n = strtol(tok, &q, 10); long t = (*q == '@') ? strtol(q + 1, &q, 10) : -1;
+        if (n < 0 || n >= MAXN || t < 0 || t >= SMAXT) { emit("<bad case>"); flush_out(); return; }
+        int id = parsec_info_register(&nfo, cname(n), NULL, NULL, NULL, NULL, NULL);
+        if (id != PARSEC_INFO_ID_UNDEFINED) QT[t].held[n] = id;
+    }
+    int nt = 0; char *save1 = NULL;
+    for (char *th = strtok_r(bar1 + 1, "/", &save1); th; th = strtok_r(NULL, "/", &save1)) {
+        if (nt >= SMAXT) { emit("<bad case>"); flush_out(); return; }
+        qthr_t *T = &QT[nt++]; char *save2 = NULL;
+        for (char *tok = strtok_r(th, " ", &save2); tok; tok = strtok_r(NULL, " ", &save2)) {
+            if (T->nops >= SMAXOPS) { emit("<bad case>"); flush_out(); return; }
+            qop_t *o = &T->ops[T->nops++]; char *q = tok + 1;
+            o->k = tok[0]; o->n = (int)fld(&q, 10);
+            if ((o->k != 'R' && o->k != 'U' && o->k != 'L') || o->n < 0 || o->n >= MAXN) { emit("<bad case>"); flush_out(); return; }
+        }
+    }
+    char *q = bar2 + 1; int ns = hc_ints(&q, sched, 8192);
+#if defined(VERIF_RACE)
+    race_reset();
+    race_share(&nfo.max_id, sizeof nfo.max_id);
+    race_share((void *)&nfo.info_list.atomic_lock, sizeof nfo.info_list.atomic_lock);
+    race_share((void *)&nfo.info_list.ghost_element, sizeof nfo.info_list.ghost_element);
+    race_share((void *)&nfo.ioa_list.atomic_lock, sizeof nfo.ioa_list.atomic_lock);
+    for (parsec_list_item_t *it = PARSEC_LIST_ITERATOR_FIRST(&nfo.info_list);
+         it != PARSEC_LIST_ITERATOR_END(&nfo.info_list); it = PARSEC_LIST_ITERATOR_NEXT(it))
+        race_share(it, sizeof(parsec_info_entry_t));
+    v_share = 1;                           /* entries allocated by the threads are shared too */
+#endif
+    emit("init{");
+    { int k = 0;
+      for (parsec_list_item_t *it = PARSEC_LIST_ITERATOR_FIRST(&nfo.info_list);
+           it != PARSEC_LIST_ITERATOR_END(&nfo.info_list); it = PARSEC_LIST_ITERATOR_NEXT(it), k++) {
+          parsec_info_entry_t *ie = (parsec_info_entry_t *)it; int nm = -1;
+          for (int n = 0; n < MAXN; n++) if (!strcmp(cname(n), ie->name)) { nm = n; break; }
+          emit("%s%d=%d", k ? "," : "", ie->iid, nm);
+      } }
+    emit("} | ");
+    cos_reset();
+    for (int t = 0; t < nt; t++) cos_spawn(q_worker, (void *)(intptr_t)t);
+    int dl = cos_run(sched, ns, 1000);
+    v_share = 0;
+    for (int t = 0; t < nt; t++) {
+        emit("%st%d:", t ? " | " : "", t);
+        for (int j = 0; j < QT[t].nops; j++) {
+            qop_t *o = &QT[t].ops[j];
+            if (o->skipped) emit(" %c=skip", o->k); else emit(" %c=%d", o->k, o->ret);
+            if (o->nsnap < 0) { emit("{?}"); continue; }
+            emit("{"); for (int q2 = 0; q2 < o->nsnap; q2++) emit("%s%d=%d", q2 ? "," : "", o->snap[2 * q2], o->snap[2 * q2 + 1]); emit("}");
+        }
+    }
+    emit(" |"); p_state();
+    emit(" | steps:"); for (int t = 0; t < nt; t++) emit(" %d", cos_steps[t]);
+    emit(" | spins:"); for (int t = 0; t < nt; t++) emit(" %d", cos_spins[t]);
+    if (dl) emit(" <deadlock>");
+    flush_out();
+}
+
 static void do_case(char *line) {
     if (!strncmp(line, "sched ", 6)) { do_sched(line); return; }
+    if (!strncmp(line, "regs ", 5) || !strcmp(line, "regs")) { do_regs(line); return; }
     PARSEC_OBJ_CONSTRUCT(&nfo, parsec_info_t);
     narr = 0; for (int i = 0; i < MAXN; i++) { held[i] = -1; snprintf(name_buf[i], sizeof name_buf[i], "n%d", i); }
     int distinct = 1, first = 1;
